@@ -252,7 +252,7 @@ def run(prop, args):
     mc(chk)
 
     # 2. scenarios generated by TLC from the specification + seeded safety scenarios
-    nscn = 380 if quick else 3000
+    nscn = 380 if quick else 7000
     scns, r = tlc_scenarios(nscn, args.seed)
     chk.add_tlc(r, "scenario generation (GradientGen, -generate)")
     chk.extra["tlc_generated_scenarios"] = len(scns)
@@ -260,7 +260,7 @@ def run(prop, args):
     execs = []
     for i, s in enumerate(scns):
         execs.append(["R c%d" % i, g_line(1, s["kind"], s["repeat"], s["wide"], s["stops"], s["g"], s["m"])])
-    nsafe = 150 if quick else 1200
+    nsafe = 150 if quick else 2500
     for i, line in enumerate(safety_scenarios(rng, nsafe)):
         execs.append(["R s%d" % i, line])
     chk.extra["executions"] = len(execs)
